@@ -103,6 +103,15 @@ func TestC04Seq(t *testing.T) {
 		if !cut {
 			check(t)
 		}
+		if !cut && rapid.Bool().Draw(t, "emptyattheend") {
+			// every object removed, bottom-up: an object that lives on without a name, or a directory that cannot be
+			// removed although it is empty, shows here
+			if err := deleteAll(x); err == nil {
+				x.logf("everything removed")
+				check(t)
+				St.Class("histories_that_end_with_everything_removed")
+			}
+		}
 		St.Eval(nfsck)
 		St.ClassN("quiescent_states_checked", nfsck)
 		if cut {
